@@ -283,6 +283,73 @@ def run(ctx):
         ok = bool(names) and names <= (WANT_NAMES[cls] | ({'xx', 'yy', 'zz'} if 'parity' in ast.unparse(fn) else set())) and bool(names & WANT_NAMES[cls])
         ctx.ob('C17.c', f'dispatch:{cls}->{hname}', ok, '' if ok else f'{cls} is dispatched to {hname}, which emits {sorted(names)} (expected a subset of {sorted(WANT_NAMES[cls])})', m.rel, fn.lineno)
 
+    # ------------------------------------------------------------------ C17.i
+    from .. import coh
+    from .. import fields as F
+    ctx.decided.append('C17.i every state-bearing constructor field of a gate class the IonQ serializer dispatches on is read by its handler (written or refused)')
+    ctx.rule('C17.i', 'attribute coverage of the IonQ handlers: for each dispatched gate class, every constructor parameter that backs stored state (global phase shift, qudit dimension / '
+             'shape and arity excepted) is read from the gate in its handler - written into the payload or tested in order to refuse; a field nobody reads is dropped from the job silently',
+             floor=12, style='COH')
+    I_EXEMPT = {'global_shift': 'a global phase is not observable in the job result', 'dimension': 'IonQ qubits are two-level; the device validator refuses other qids',
+                'qid_shape': 'IonQ qubits are two-level', 'num_qubits': 'equals the number of targets, which is written'}
+    KEY_ONLY = {'measurement_key_name', 'measurement_key_obj', 'measurement_key_names', 'measurement_key_objs', 'is_parameterized', 'num_qubits'}
+    for cls, hname in sorted(table.items()):
+        fn = ser.methods.get(hname)
+        if fn is None:
+            continue
+        try:
+            c = repo.resolve_class(m, cls) or repo.cls(cls)
+        except Exception:
+            c = None
+        if c is None:
+            cands = repo.classes_by_name.get(cls.split('.')[-1], [])
+            c = cands[0] if len(cands) == 1 else None
+        if c is None:
+            ctx.unres('C17.i', cls, 'dispatched class not resolvable', m.rel, fn.lineno)
+            continue
+        gparam = fn.args.args[1].arg if len(fn.args.args) > 1 else None
+        reads = set()
+        todo, seen_f = [(fn, gparam)], set()
+        while todo:
+            f, gp = todo.pop()
+            if f in seen_f or gp is None:
+                continue
+            seen_f.add(f)
+            for n in ast.walk(f):
+                if isinstance(n, ast.Attribute) and isinstance(n.value, ast.Name) and n.value.id == gp:
+                    reads.add(n.attr)
+                if isinstance(n, ast.Call) and any(isinstance(a, ast.Name) and a.id == gp for a in n.args):
+                    cn = (call_name(n) or '').split('.')[-1]
+                    if cn in KEY_ONLY:
+                        reads.add('key')
+                    elif isinstance(n.func, ast.Attribute) and isinstance(n.func.value, ast.Name) and n.func.value.id == 'self' and n.func.attr in ser.methods:
+                        sub = ser.methods[n.func.attr]
+                        idx = [i for i, a in enumerate(n.args) if isinstance(a, ast.Name) and a.id == gp][0]
+                        if idx + 1 < len(sub.args.args):
+                            todo.append((sub, sub.args.args[idx + 1].arg))
+                    else:
+                        reads.add('<whole>')
+        info = coh.init_info(repo, c)
+        if info is None or info[1] is None:
+            continue
+        owner, initfn, params, defaults, varkw = info
+        p2f = F.init_param_to_field(repo, c)
+        readf = set()
+        for a in reads:
+            readf.add(F.norm_field(repo, c, a))
+            readf.add(a)
+            r = repo.find_method(c, a)
+            if r is not None:
+                readf |= F.self_reads(repo, c, r[1], depth=2)
+        for p in params:
+            if not p2f.get(p) or p in I_EXEMPT:
+                continue
+            if initfn.args.kwarg is not None and p == initfn.args.kwarg.arg:
+                continue
+            ok = '<whole>' in reads or bool(p2f[p] & readf) or p in reads
+            ctx.ob('C17.i', f'{c.name}:{p}->{hname}', ok, '' if ok else
+                   f'{c.name}.{p} is stored state, but {hname} neither writes nor refuses it: the job runs a different operation than the circuit says', m.rel, fn.lineno)
+
     # ------------------------------------------------------------------ C17.b
     ctx.rule('C17.b', '_serialize_op rejects gate-less and parameterized operations before dispatch and ends in ValueError when no handler produced a result; '
              'serialize_* validate the circuit before serializing', floor=5, style='MPT')
